@@ -4,7 +4,7 @@ QUICK_RUNS = 9600
 THOROUGH_BUDGET_S = 600
 RULE = (
     "seeded scenarios: one of the 8 streaming transforms (invert_freq, apply_channel_mask, extract_samps, "
-    "extract_chans, extract_bands, downsample, subband, remove_zerodm) run under 1-2 different gulps on a FilReader "
+    "extract_chans, extract_bands, downsample, subband, remove_zerodm) run under 1-2 different gulps on ONE FilReader object (30% of runs first make 1-2 unrelated calls - compute_stats, collapse, bandpass, read_block on other ranges - on that reader: the output must not depend on the object's history) "
     "over 1-2 harness-written files (depth 1,2,4,8,32), with generated (start,nsamps), masks, channel lists, band "
     "layouts, factors, DM/nsub, batch sizes (only configurations whose output sample is a whole number of bytes); "
     "every output file is parsed with the harness' own header parser/unpacker and compared with the whole-array "
@@ -14,7 +14,7 @@ RULE = (
 PROBES = [
     "decimation:gulp!=nchans", "decimation:gulp-rounded-up", "decimation:remainder-block<tfactor", "multi-batch-extract",
     "extract_chans:8bit-to-32bit-tim", "sub-range-before-EOF", ">=3-blocks", "two-gulps-compared", "subband:maxdelay>0",
-    "subband:gulp-raised-to-2maxdelay", "multi-file", "sub-byte", "W3-raised", "R-fault-raised", "zerodm:in-range",
+    "subband:gulp-raised-to-2maxdelay", "multi-file", "sub-byte", "W3-raised", "R-fault-raised", "zerodm:in-range", "pre-history-call",
 ] + [f"ok:{n}" for n in ["invert_freq", "apply_channel_mask", "extract_samps", "extract_chans", "extract_bands", "downsample", "subband", "remove_zerodm"]]
 COMPONENTS = {
     "real": ["sigpyproc.base.Filterbank streaming transforms", "sigpyproc.readers.FilReader.read_plan", "numba kernels (compiled, 1 thread)",
